@@ -445,6 +445,35 @@ def run_pesach_tlc(window, ctx):
 _PESACH_REF = None
 
 
+_EASTER_REF = None
+
+
+def run_easter_pairs(block, ctx):
+    """Every ordered pair (y1, y2) of years 1..3000: easter(y1) then easter(y2) (9 000 000 pairs)."""
+    global _EASTER_REF
+    if _EASTER_REF is None:
+        _EASTER_REF = [None] + [computus.easter(y) for y in range(1, 3001)]
+    ref = _EASTER_REF
+    f = Epoch.easter
+    for y1 in block:
+        bad = 0
+        for y2 in range(1, 3001):
+            f(y1)
+            r = f(y2)
+            if (r[0], r[1]) != ref[y2]:
+                bad += 1
+                if bad <= 3:
+                    ctx.viol({"year": y2, "after": y1}, "easter(%d) right after easter(%d) = %r, expected %r"
+                             % (y2, y1, tuple(r), ref[y2]), site="easter_pair")
+        ctx.evals += 6000
+        ctx.transitions += 3000
+        ctx.nt_count += 3000
+        ctx.outcome(bad)
+    ctx.traces += len(block)
+    ctx.obs(block[0], block[-1])
+    ctx.sample({"first_year": block[0], "second_years": [1, 3000]})
+
+
 def run_pesach_pairs(block, ctx):
     """Every ordered pair (y1, y2) of years 1..3000: jewish_pesach(y1) then jewish_pesach(y2); the second answer
     must be the reference value of y2 (9 000 000 pairs; a one-slot memo with an incomplete key collides only
@@ -558,6 +587,8 @@ def clauses(tier):
         Clause("moslem_to_civil", chunks(hs, 64), run_m2g, replay_m2g, floor=800000, shape="S"),
         Clause("civil_to_moslem", chunks(hs_civil, 64), run_g2m, replay_g2m, floor=800000,
                shape="S"),
+        Clause("easter_pairs", chunks(list(range(1, 3001)), 64), run_easter_pairs,
+               lambda c: check_easter(c["year"]), floor=1000000, shape="H"),
         Clause("pesach_pairs", chunks(list(range(1, 3001)), 64), run_pesach_pairs,
                lambda c: check_pesach(c["year"]), floor=1000000, shape="H"),
         Clause("moslem_year_pairs", chunks(list(range(1, 2501)), 64), run_m2g_pairs,
